@@ -286,6 +286,7 @@ NAME_RULES = [
 PUBLIC_NAME_RULES = [
     (r"(^|\.|\b)(\w*_hash|hash|expected|actual)$", "publicMeta", "SHA-256 of an encrypted blob (its public Blossom address)"),
     (r"(^|\.|\b)(path|file_path|db_path|dir|directory)$", "publicMeta", "filesystem path"),
+    (r"(^|\.|\b)(name|description|group_name|group_description)$", "publicMeta", "group name / description: user content, not one of the five protected kinds"),
     (r"(^|\.|\b)failure_reason$", "text", "stored failure reason (free text built at an errorCtors site)"),
     (r"(^|\.|\b)(event_id|message_event_id|wrapper_event_id|welcome_event_id|commit_event_id|applied_commit_id|commit_id|msg_id|rumor_id)$", "eventId", "event id field"),
     (r"^(\w+\.)*(event|rumor|message|msg|evolution_event|welcome_event)\.id$", "eventId", "id of an event"),
@@ -415,6 +416,14 @@ def local_binding(fn_src, ident, before):
 
 def type_class(t, ctx):
     t = re.sub(r"\s+", " ", t.strip())
+    m = re.match(r"^&?(mut )?(Option|Vec|BTreeSet|HashSet|Box|Arc)<(.*)>$", t)
+    if m and not re.match(r"^&?(mut )?(Option<)?&?Secret<", t):
+        cls, why = type_class(m.group(3), ctx)
+        if cls in ("number", "eventId", "pubkey", "publicMeta", "const", "redacted", "groupId"):
+            return cls, f"container of {m.group(3)}: {why}"
+    if re.match(r"^&?(mut )?(nostr::)?RelayUrl$", t):
+        used("type RelayUrl → publicMeta (relay URLs are not one of the protected kinds)")
+        return "publicMeta", "relay URL"
     for pat, cls, why in TYPE_CLASS:
         if re.match(pat, t):
             used(f"type {pat} → {cls}: {why}")
@@ -485,9 +494,21 @@ def classify(expr, ctx, depth=0):
     if re.search(r"\.(len|count)\(\)(\s+as\s+\w+)?$", e):
         used(".len() / .count() → count")
         return leaf("count", "len()/count()")
+    if re.search(r"\.map\(\|\s*(\w+)\s*\|\s*\1\.len\(\)\)$", e):
+        used(".map(|x| x.len()) → count")
+        return leaf("count", "optional len()")
     if re.search(r"\.(is_some|is_none|is_empty|is_ok|is_err|is_persistent)\(\)$", e):
         used(".is_*() → number")
         return leaf("number", "boolean test")
+    # ---- calls whose declared return type decides
+    m = re.match(r"^(?:.*\.|(?:\w+::)*)?([a-z_][a-z0-9_]*)\((.*)\)$", e, re.S)
+    if m and ctx.get("repo"):
+        rets = fn_return_types(ctx["repo"], m.group(1))
+        if rets:
+            cs = {type_class(r, ctx)[0] for r in rets}
+            if len(cs) == 1 and cs <= {"const", "number"}:
+                used("call of an mdk fn whose every definition returns &'static str / integer → const / number")
+                return leaf(cs.pop(), f"fn {m.group(1)} returns {sorted(rets)}")
     # ---- function-scope rules
     for suffix, fnre, exre, cls, why in FN_RULES:
         if suffix in ctx.get("file", "") and re.match(fnre, ctx.get("fn") or "") and re.match(exre, e, re.S):
@@ -524,15 +545,6 @@ def classify(expr, ctx, depth=0):
         if re.search(pat, e) and not re.search(r"[(\[]", e):
             used(f"field /{pat[:40]}…/ → {cls}: {why}")
             return leaf(cls, why)
-    # ---- calls whose declared return type decides
-    m = re.match(r"^(?:.*\.|(?:\w+::)*)?([a-z_][a-z0-9_]*)\((.*)\)$", e, re.S)
-    if m and ctx.get("repo"):
-        rets = fn_return_types(ctx["repo"], m.group(1))
-        if rets:
-            cs = {type_class(r, ctx)[0] for r in rets}
-            if len(cs) == 1 and cs <= {"const", "number"}:
-                used("call of an mdk fn whose every definition returns &'static str / integer → const / number")
-                return leaf(cs.pop(), f"fn {m.group(1)} returns {sorted(rets)}")
     # ---- local identifiers
     if re.fullmatch(r"[a-z_][a-z0-9_]*", e) and ctx.get("fn_src"):
         # pattern-bound in a Display/Debug arm of a rendered enum
@@ -558,6 +570,11 @@ def classify(expr, ctx, depth=0):
         for fname, ftype, attrs in ctx["self_type"]["fields"]:
             if fname == m.group(1):
                 cls, why = field_class(fname, ftype, attrs, ctx)
+                if cls in ("text", "unknown"):
+                    for pat, c2, w2 in PUBLIC_NAME_RULES:
+                        if re.search(pat, fname) and c2 != "text":
+                            used(f"field /{pat[:40]}…/ → {c2}: {w2}")
+                            return leaf(c2, w2)
                 if cls == "unknown":
                     inner = ctx.get("types", {}).get(ftype.split("::")[-1])
                     if inner and inner["kind"] == "struct" and inner["fields"] and \
